@@ -1,5 +1,6 @@
 import AmqModel.Driver.Common
 import AmqModel.Model.ConnRun
+import AmqModel.Model.ConnHb
 namespace AmqModel.Driver
 open AmqModel.Conn AmqModel.Collector
 
@@ -187,44 +188,59 @@ def parseClientOp : List String → Option ClientOp
   | ["drop-lst", l] => some (.dropLst l)
   | _ => none
 
-def machineStep (legacy : Bool) (s : Option Conn) (toks : List String) : Option Conn × List String :=
+def hbLines : ConnHb.HbOut → List String
+  | .dead => ["dead"]
+  | .ok => ["res ok"]
+  | .missedServerHeartbeats => ["res err MissedServerHeartbeats"]
+
+def machineStep (legacy : Bool) (s : Option ConnHb.St) (toks : List String) : Option ConnHb.St × List String :=
   match toks, s with
   | ["init", cm, b], _ =>
     match cm.toNat?, b.toNat? with
-    | some cm, some b => (some (Conn.init cm b legacy), ["ok"])
+    | some cm, some b => (some { c := Conn.init cm b legacy }, ["ok"])
     | _, _ => (s, ["bad-op"])
-  | "decl" :: h :: dc :: df :: rest, some c =>
+  | "decl" :: h :: dc :: df :: rest, some st =>
     match fromHex h, fromHex dc, fromHex df with
     | some bytes, some dc, some df =>
-      if rest = ["bad"] then (some (step c (.decl ⟨bytes, none, dc, df⟩)), ["ok"])
+      if rest = ["bad"] then (some { st with c := step st.c (.decl ⟨bytes, none, dc, df⟩) }, ["ok"])
       else match parseFrameToks rest with
-        | some f => (some (step c (.decl ⟨bytes, some f, dc, df⟩)), ["ok"])
+        | some f => (some { st with c := step st.c (.decl ⟨bytes, some f, dc, df⟩) }, ["ok"])
         | none => (s, ["bad-op"])
     | _, _, _ => (s, ["bad-op"])
-  | "feed" :: evs, some c =>
+  | "feed" :: evs, some st =>
     match evs.mapM parseReadEv with
-    | some es => (some (step c (.feed es)), ["ok"])
+    | some es => (some { st with c := step st.c (.feed es) }, ["ok"])
     | none => (s, ["bad-op"])
-  | "wscript" :: ws, some c =>
+  | "wscript" :: ws, some st =>
     match ws.mapM parseWriteStep with
-    | some w => (some (step c (.wscript w)), ["ok"])
+    | some w => (some { st with c := step st.c (.wscript w) }, ["ok"])
     | none => (s, ["bad-op"])
-  | ["dump"], some c => if c.dead then (s, ["dead"]) else (s, dumpLines c)
-  | _, some c =>
+  | ["dump"], some st => if st.c.dead then (s, ["dead"]) else (s, dumpLines st.c)
+  | ["hb-start", ms], some st =>
+    if st.c.dead then (s, ["dead"]) else
+    match ms.toNat? with
+    | some ms => (some (ConnHb.startHeartbeats st ms), ["ok"])
+    | none => (s, ["bad-op"])
+  | ["sleep", ms], some st =>
+    match ms.toNat? with
+    | some ms => (some (ConnHb.sleep st ms), ["ok"])
+    | none => (s, ["bad-op"])
+  | ["hbev"], some st => let (st1, out) := ConnHb.hbEvent st; (some st1, hbLines out)
+  | _, some st =>
     match parseIoOp toks with
     | some o =>
-      let (c1, out) := ioStep c o
+      let (st1, out) := ConnHb.ioStep st o
       match o with
-      | .poll => (some c1, if out.dead then ["dead"] else [readyLine out.ready])
-      | .dereg | .rereg | .kill => (some c1, if out.dead then ["dead"] else ["ok"])
-      | _ => (some c1, ioLines out)
+      | .poll => (some st1, if out.dead then ["dead"] else [readyLine out.ready])
+      | .dereg | .rereg | .kill => (some st1, if out.dead then ["dead"] else ["ok"])
+      | _ => (some st1, ioLines out)
     | none =>
       match parseClientOp toks with
-      | some o => let (c1, out) := clientStep c o; (some c1, [clientLine out])
+      | some o => let (st1, out) := ConnHb.clientStep st o; (some st1, [clientLine out])
       | none => (s, ["bad-op"])
   | _, _ => (s, ["bad-op"])
 
-def machineEngine : Engine := { σ := Option Conn, init := none, step := machineStep false }
-def machineLegacyEngine : Engine := { σ := Option Conn, init := none, step := machineStep true }
+def machineEngine : Engine := { σ := Option ConnHb.St, init := none, step := machineStep false }
+def machineLegacyEngine : Engine := { σ := Option ConnHb.St, init := none, step := machineStep true }
 
 end AmqModel.Driver
